@@ -71,9 +71,12 @@ theorem field_loop_verdicts (fuel : Nat) (s : Srv) (st : Strm) (bs eh : Bool) (f
       | needMore => simp only []; split <;> simp
       | err => simp
       | ok dec fo rest =>
+        cases fo with
+        | none => simp
+        | some f =>
         simp only []
-        have hv := field_verdicts s.cfg st (fo.getD ⟨[], [], false⟩)
-        cases hx : (fieldStep s.cfg st (fo.getD ⟨[], [], false⟩)).2 with
+        have hv := field_verdicts s.cfg { st with fieldSeen := true } f
+        cases hx : (fieldStep s.cfg { st with fieldSeen := true } f).2 with
         | none => simp only []; exact ih _ _ _ _
         | some e =>
           simp only []
@@ -124,7 +127,8 @@ def decOnly : Nat → Hpack.DecState → Bool → Nat → Bytes → Option Hpack
   | _, dec, _, _, [] => some dec
   | fuel + 1, dec, bs, fp, b =>
     match Hpack.Dec.next dec bs fp b with
-    | .ok d _ rest => decOnly fuel d bs (fp + 1) rest
+    | .ok d (some _) rest => decOnly fuel d bs (fp + 1) rest
+    | .ok d none _ => some d      -- only table size updates were left
     | _ => none
 
 /-- full statement: whatever becomes of the stream, the decoder has consumed the whole fragment -/
@@ -158,9 +162,12 @@ theorem ctx_sync_partial (fuel : Nat) (s : Srv) (st : Strm) (bs : Bool) (fp : Na
       | needMore => rw [hd] at hok; simp at hok
       | err => rw [hd] at hok; simp at hok
       | ok dec fo rest =>
+        cases fo with
+        | none => simp
+        | some f =>
         rw [hd] at hok
         simp only [] at hok ⊢
-        cases hx : (fieldStep s.cfg st (fo.getD ⟨[], [], false⟩)).2 with
+        cases hx : (fieldStep s.cfg { st with fieldSeen := true } f).2 with
         | some e => rw [hx] at hok; simp at hok
         | none =>
           rw [hx] at hok
